@@ -37,6 +37,34 @@ func (g *Gen) extractRules() []*Rule {
 		g.errorf("rules: (*compiler).doOptimize not found")
 		return nil
 	}
+	lenAliases = map[string]bool{}
+	assigned := map[string]int{}
+	ast.Inspect(fd.Body, func(n ast.Node) bool {
+		if as, ok := n.(*ast.AssignStmt); ok {
+			for _, l := range as.Lhs {
+				if id, ok := l.(*ast.Ident); ok {
+					assigned[id.Name]++
+				}
+			}
+			if as.Tok == token.DEFINE && len(as.Lhs) == 1 && len(as.Rhs) == 1 {
+				if id, ok := as.Lhs[0].(*ast.Ident); ok {
+					if c, ok := as.Rhs[0].(*ast.CallExpr); ok && len(c.Args) == 1 {
+						if f, ok := c.Fun.(*ast.Ident); ok && f.Name == "len" {
+							if a, ok := c.Args[0].(*ast.Ident); ok && a.Name == "in" {
+								lenAliases[id.Name] = true
+							}
+						}
+					}
+				}
+			}
+		}
+		return true
+	})
+	for name := range lenAliases {
+		if assigned[name] != 1 {
+			delete(lenAliases, name) // reassigned later: not a pure alias of len(in)
+		}
+	}
 	var sw *ast.SwitchStmt
 	ast.Inspect(fd.Body, func(n ast.Node) bool {
 		if s, ok := n.(*ast.SwitchStmt); ok && sw == nil {
@@ -158,11 +186,17 @@ func (g *Gen) extractRules() []*Rule {
 	return rules
 }
 
+// lenAliases: locals of doOptimize defined once as `x := len(in)` (a hoisted length)
+var lenAliases = map[string]bool{}
+
 func lenInMinus(e ast.Expr) (int, bool) {
 	if c, ok := e.(*ast.CallExpr); ok {
 		if id, ok := c.Fun.(*ast.Ident); ok && id.Name == "len" {
 			return 0, true
 		}
+	}
+	if id, ok := e.(*ast.Ident); ok && lenAliases[id.Name] {
+		return 0, true
 	}
 	if b, ok := e.(*ast.BinaryExpr); ok && b.Op == token.SUB {
 		if _, ok := lenInMinus(b.X); ok {
